@@ -415,6 +415,7 @@ type grpcHandlerConn struct {
 	wroteToBody     bool
 	request         *http.Request
 	unmarshaler     grpcUnmarshaler
+	receiveErr      error // the first error Receive returned, the end of the request included
 }
 
 func (hc *grpcHandlerConn) Spec() Spec {
@@ -422,13 +423,19 @@ func (hc *grpcHandlerConn) Spec() Spec {
 }
 
 func (hc *grpcHandlerConn) Receive(msg any) error {
+	if hc.receiveErr != nil {
+		// The request has ended or is broken. Reading on could report a request
+		// that stopped in the middle of a message as cleanly finished.
+		return hc.receiveErr
+	}
 	if err := hc.unmarshaler.Unmarshal(msg); err != nil {
+		hc.receiveErr = err // already coded
 		if errors.Is(err, errSpecialEnvelope) {
-			// Clients may not send gRPC-Web trailers. The sentinel wraps io.EOF,
-			// so passing it on would look like a clean end of the request.
-			return errorf(CodeInvalidArgument, "protocol error: client sent a trailers envelope")
+			// Clients may not send gRPC-Web trailers. The sentinel wraps
+			// io.EOF, so passing it on would look like a clean end of the request.
+			hc.receiveErr = errorf(CodeInvalidArgument, "protocol error: client sent a trailers envelope")
 		}
-		return err // already coded
+		return hc.receiveErr
 	}
 	return nil // must be a literal nil: nil *Error is a non-nil error
 }
